@@ -2,7 +2,8 @@
    resolution) and the whole xls report (property C16, xls). *)
 From Calamine Require Import Prelude BiffSst BiffSst_proofs Meta Meta_proofs MetaXls_proofs
      MetaXlsb_proofs.
-From Calamine Require Col26 Col26_proofs Utf16 Utf16_proofs Ptg Ptg_proofs NumFmt NumFmt_proofs.
+From Calamine Require Col26 Col26_proofs Utf16 Utf16_proofs Ptg Ptg_proofs NumFmt NumFmt_proofs
+     FormulaEnv FormulaEnv_proofs.
 Open Scope N_scope.
 
 (* ------------------------------------------------------------------------------------- *)
@@ -94,11 +95,11 @@ Qed.
 (** * the Lbl record *)
 
 Definition lbl_head (n : str * xref) (ch : ln_choice) : bytes :=
-  le16 (ln_flags ch) ++ [ln_key ch; len (units_of (fst n))] ++ le16 (len (xref_rgce (snd n)))
+  le16 (ln_flags ch) ++ [ln_key ch; len (lbl_units (fst n) ch)] ++ le16 (len (xref_rgce (snd n)))
   ++ [0; 0] ++ le16 (ln_itab ch) ++ [0; 0; 0; 0].
 
 Lemma lbl_split : forall n ch,
-  lbl_body n ch = lbl_head n ch ++ (b2n (ln_wide ch) :: seg_bytes (ln_wide ch) (units_of (fst n)))
+  lbl_body n ch = lbl_head n ch ++ (b2n (ln_wide ch) :: seg_bytes (ln_wide ch) (lbl_units (fst n) ch))
                   ++ xref_rgce (snd n).
 Proof. reflexivity. Qed.
 
@@ -122,10 +123,51 @@ Proof.
     destruct us; [reflexivity|]. rewrite len_cons in H. lia.
 Qed.
 
+(* built-in names: the id a legal record stores, and what the reader makes of it *)
+Lemma builtin_id_facts : forall n id, builtin_id n = Some id ->
+  id < 14 /\ exists b, FormulaEnv.builtin_name id = Some b /\ n = s_xlnm ++ b.
+Proof.
+  intros n id H. unfold builtin_id in H. apply find_some in H. destruct H as [Hin Hp].
+  cbn [In] in Hin.
+  repeat (destruct Hin as [<-|Hin]; [split; [lia|]; unfold builtin_full in Hp;
+            cbn [FormulaEnv.builtin_name] in *; eexists; split; [reflexivity|];
+            apply str_eqb_eq in Hp; symmetry; exact Hp|]).
+  contradiction.
+Qed.
+
+Lemma lbl_units_legal : forall n ch, name_ok n = true -> len (units_of n) <= 255 ->
+  wide_ok (ln_wide ch) n = true -> legal_short_string (ln_wide ch) (lbl_units n ch) = true.
+Proof.
+  intros n ch Hn Hl Hw. unfold lbl_units.
+  destruct (N.testbit (ln_flags ch) 5); [|apply short_legal; assumption].
+  destruct (builtin_id n) as [id|] eqn:E; [|apply short_legal; assumption].
+  destruct (builtin_id_facts _ _ E) as [Hid _].
+  unfold legal_short_string, seg_ok, all_lt. cbn [forallb len length].
+  replace (id <? 65536) with true by lia. replace (id <? 256) with true by lia.
+  destruct (ln_wide ch); reflexivity.
+Qed.
+
+Lemma lbl_name_decoded : forall n ch, name_ok n = true ->
+  (negb (N.testbit (ln_flags ch) 5) || is_some (builtin_id n)) = true ->
+  FormulaEnv.builtin_fix (ln_flags ch mod 256) (utf16_decode (lbl_units n ch)) = n.
+Proof.
+  intros n ch Hn Hb. destruct (name_ok_parts n Hn) as [Hsc _].
+  unfold FormulaEnv.builtin_fix, lbl_units. rewrite FormulaEnv_proofs.testbit5_mod256.
+  destruct (N.testbit (ln_flags ch) 5); cbn [negb orb] in Hb.
+  - destruct (builtin_id n) as [id|] eqn:E; [|discriminate].
+    destruct (builtin_id_facts _ _ E) as (Hid & b & Hb1 & ->).
+    assert (Hc : id = 0 \/ id = 1 \/ id = 2 \/ id = 3 \/ id = 4 \/ id = 5 \/ id = 6 \/ id = 7 \/ id = 8
+                 \/ id = 9 \/ id = 10 \/ id = 11 \/ id = 12 \/ id = 13) by lia.
+    repeat (destruct Hc as [->|Hc]; [cbn [FormulaEnv.builtin_name] in Hb1; injection Hb1 as <-; vm_compute; reflexivity|]).
+    subst id. cbn [FormulaEnv.builtin_name] in Hb1. injection Hb1 as <-. vm_compute. reflexivity.
+  - unfold units_of. apply biff_decode_encode. exact Hsc.
+Qed.
+
 Lemma lbl_enc : forall nxti n ch, ln_legal nxti n ch = true ->
   xls_lbl (lbl_body n ch) = Ok (fst n, (Some (xref_ixti (snd n)), xref_text (snd n)), xref_rgce (snd n)).
 Proof.
   intros nxti n ch H. unfold ln_legal in H.
+  apply andb_true_iff in H. destruct H as [H Hbi].
   apply andb_true_iff in H. destruct H as [H Hitab].
   apply andb_true_iff in H. destruct H as [H Hkey].
   apply andb_true_iff in H. destruct H as [H Hfl].
@@ -133,11 +175,10 @@ Proof.
   apply andb_true_iff in H. destruct H as [H Hx].
   apply andb_true_iff in H. destruct H as [H Hw].
   apply andb_true_iff in H. destruct H as [Hn Hlen].
-  destruct (name_ok_parts (fst n) Hn) as [Hsc _].
-  assert (Hleg : legal_short_string (ln_wide ch) (units_of (fst n)) = true)
-    by (apply short_legal; [assumption|lia|assumption]).
+  assert (Hleg : legal_short_string (ln_wide ch) (lbl_units (fst n) ch) = true)
+    by (apply lbl_units_legal; [assumption|lia|assumption]).
   destruct (legal_short_parts _ _ Hleg) as (Hcch & Hlt & Hseg).
-  set (us := units_of (fst n)) in *. set (rgce := xref_rgce (snd n)).
+  set (us := lbl_units (fst n) ch) in *. set (rgce := xref_rgce (snd n)).
   set (S1 := b2n (ln_wide ch) :: seg_bytes (ln_wide ch) us).
   assert (Hrg : len rgce <= 11) by (unfold rgce; destruct (snd n); cbn; lia).
   assert (Hd : lbl_body n ch = lbl_head n ch ++ S1 ++ rgce) by reflexivity.
@@ -147,6 +188,7 @@ Proof.
   unfold xls_lbl. rewrite Hlb.
   replace (14 + len S1 + len rgce <? 14) with false by lia.
   change (nth 3 (lbl_body n ch) 0) with (len us).
+  change (nth 0 (lbl_body n ch) 0) with (ln_flags ch mod 256).
   replace (read_u16 (drop 4 (lbl_body n ch))) with (@Ok N (len rgce)).
   2: { change (drop 4 (lbl_body n ch))
          with (le16 (len rgce) ++ [0; 0] ++ le16 (ln_itab ch) ++ [0; 0; 0; 0] ++ S1 ++ rgce).
@@ -163,7 +205,7 @@ Proof.
          by (rewrite len_app, HH; lia).
        rewrite drop_len_app. reflexivity. }
   cbv zeta. unfold rgce. rewrite (defined_name_enc (snd n) Hx). cbn [obind].
-  unfold us, units_of. rewrite (biff_decode_encode _ Hsc). reflexivity.
+  unfold us. rewrite (lbl_name_decoded _ _ Hn Hbi). reflexivity.
 Qed.
 
 (* ------------------------------------------------------------------------------------- *)
@@ -269,6 +311,9 @@ Proof.
   intros nxti n ch H. unfold ln_legal in H.
   repeat (apply andb_true_iff in H; destruct H as [H ?]).
   assert (Hrg : len (xref_rgce (snd n)) <= 11) by (destruct (snd n); cbn; lia).
+  assert (Hu : len (lbl_units (fst n) ch) <= 255).
+  { unfold lbl_units. destruct (N.testbit (ln_flags ch) 5); [|lia].
+    destruct (builtin_id (fst n)); [cbn; lia|lia]. }
   rewrite lbl_split, !len_app, len_cons, len_seg_bytes.
   change (len (lbl_head n ch)) with 14. destruct (ln_wide ch); lia.
 Qed.
@@ -613,17 +658,18 @@ Definition ex_xlsn_wb : workbook xref :=
   mkWb [mkMeta [97; 233] Hidden MacroSheet; mkMeta [128512; 20013] VeryHidden WorkSheet]
        [([110], XRef Ptg.CRef 1 (Ptg.Build_cref 0 1 false true));
         ([20013], XArea Ptg.CVal 0 (Ptg.Build_cref 0 0 false false) (Ptg.Build_cref 9 25 true false));
-        ([101], XRefErr Ptg.CArr 0)] true.
+        (s_xlnm ++ [80; 114; 105; 110; 116; 95; 65; 114; 101; 97], XRefErr Ptg.CArr 0)] true.   (* _xlnm.Print_Area *)
 Definition ex_xlsn_c : xls_choice :=
   mkLc [mkLs 0 false 63; mkLs 10 true 9]
-       [mkLn false 0 0 0; mkLn true 32 65 1; mkLn false 0 0 0] [(0, 1, 1); (0, 0, 0)]
+       [mkLn false 0 0 0; mkLn true 1 65 1; mkLn false 33 0 1] [(0, 1, 1); (0, 0, 0)]   (* the third: hidden + fBuiltin, stored as id 6 *)
        [(225, [176; 4])] [(224, [0; 0; 14; 0])] [] [(255, [])] false [9; 8].
 Lemma xlsn_nonvacuous :
   xls_legal ex_xlsn_c ex_xlsn_wb = true /\
   spec_names_xls ex_xlsn_c ex_xlsn_wb =
     [([110], [97; 233; 33; 66; 36; 49]);
      ([20013], [128512; 20013; 33; 36; 65; 36; 49; 58; 36; 90; 49; 48]);
-     ([101], [128512; 20013; 33; 35; 82; 69; 70; 33])].
+     (s_xlnm ++ [80; 114; 105; 110; 116; 95; 65; 114; 101; 97], [128512; 20013; 33; 35; 82; 69; 70; 33])] /\
+  lbl_units (s_xlnm ++ [80; 114; 105; 110; 116; 95; 65; 114; 101; 97]) (mkLn false 33 0 1) = [6].
 Proof. vm_compute. repeat split. Qed.
 
 (* xlsx: the same composition with C10's date_iff_style_xlsx *)
